@@ -85,4 +85,10 @@ def cases():
     one('3d-middle-fixed', '    kk = 2\n    associate(pl => y3(:, kk, :))\n      do i=1,2\n        do j=1,2\n          pl(i, j) = pl(i, j) + i*10 + j\n        end do\n      end do\n    end associate')
     one('nested-sections', '    kk = 1\n    associate(slab => y3(:, :, kk))\n      do j=1,2\n        associate(line => slab(j, :))\n          do i=1,n\n            line(i) = line(i)*2.0 + i + j*10\n          end do\n        end associate\n      end do\n    end associate')
     one('3d-first-fixed', '    associate(pl => y3(2, :, :))\n      do i=1,n\n        pl(i, 1) = a(i)\n        pl(i, 2) = pl(i, 1) + 1.0\n      end do\n    end associate')
+    # associate names used as SUBSCRIPTS of arrays that are not themselves replaced by a selector (components reached through
+    # an associate name, arrays of a kept outer block), with and without shadowing of a routine-level name
+    one('associate-name-as-subscript-of-component', '    o%k = 2\n    associate(p => o)\n      associate(idx => p%k)\n        p%inn%v(idx) = p%inn%v(idx) + r\n        r = p%inn%v(idx)*2.0\n      end associate\n    end associate')
+    one('associate-name-as-subscript-shadowing-local', '    kk = 3\n    o%k = 1\n    associate(p => o%inn)\n      associate(kk => o%k)\n        p%v(kk) = p%v(kk) + 10.0\n        a(kk) = p%v(kk)\n      end associate\n      p%v(kk) = -1.0\n    end associate')
+    one('associate-name-as-subscript-in-kept-outer-block', '    o%k = 2\n    kk = 1\n    associate(w => o%inn%v, kk => o%k)\n      associate(kk => o%k, q => o%inn)\n        w(kk) = w(kk) + q%w\n        q%v(kk) = q%v(kk)*2.0\n      end associate\n      r = w(kk)\n    end associate')
+    one('associate-name-in-subscript-expression', '    o%k = 1\n    associate(p => o)\n      associate(lo => p%k, arr => a)\n        p%inn%v(lo + 1) = arr(lo) + arr(lo + 1)\n        b(lo, lo + 1) = p%inn%v(lo + 1)\n      end associate\n    end associate')
     return out
